@@ -346,7 +346,7 @@ def space(tier, seed):
     cases = []
     fl = ('nopos', 'noframeid')
     for v in docs.VERSIONS:
-        src_cases = docgen.feature_space(v, 1, flags=fl) + docgen.multi_space(v)
+        src_cases = docgen.feature_space(v, 1, flags=fl) + [c for c in docgen.multi_space(v) if 'X' not in c['order']]
         src_cases += docgen.shape_space(v, counts=(0, 1, 3))
         for e in docs.VERSIONS:
             quick_pair = (v in ('1.0', '1.3') or e == v) and (e in ('1.0', '1.1', '1.3'))
